@@ -293,15 +293,38 @@ func runC11(r *Run) {
 		}
 		cmps := map[string]cmpInfo{}
 		errNilKeys := map[string]bool{}
-		for _, b := range fn.Blocks {
-			iff, ok := b.Instrs[len(b.Instrs)-1].(*ssa.If)
-			if !ok {
-				continue
+		// the branch conditions of the function, a merged boolean (`a || b`, the result of a predicate helper)
+		// contributing the comparisons merged into it: PATH keys such a branch by the one its path came through
+		var condBinOps []*ssa.BinOp
+		{
+			seenV := map[ssa.Value]bool{}
+			var addCond func(v ssa.Value, depth int)
+			addCond = func(v ssa.Value, depth int) {
+				if v == nil || seenV[v] || depth > 4 {
+					return
+				}
+				seenV[v] = true
+				switch x := v.(type) {
+				case *ssa.BinOp:
+					condBinOps = append(condBinOps, x)
+				case *ssa.UnOp:
+					if x.Op == token.NOT {
+						addCond(x.X, depth+1)
+					}
+				case *ssa.Phi:
+					for _, e := range x.Edges {
+						addCond(e, depth+1)
+					}
+				}
 			}
-			bo, ok := iff.Cond.(*ssa.BinOp)
-			if !ok {
-				continue
+			for _, b := range fn.Blocks {
+				if iff, ok := b.Instrs[len(b.Instrs)-1].(*ssa.If); ok {
+					addCond(iff.Cond, 0)
+				}
 			}
+		}
+		attLoads := map[ssa.Value]bool{} // the loads of the attempt counter that are compared with the limit
+		for _, bo := range condBinOps {
 			isMax := func(v ssa.Value) bool {
 				if c, ok := v.(*ssa.Call); ok {
 					if n, ok := atomicOpOnField(c, m.MaxAttempts); ok && n == "LoadInt32" {
@@ -311,13 +334,15 @@ func runC11(r *Run) {
 				return valueIsLoadOfField(v, m.MaxAttempts)
 			}
 			isAtt := func(v ssa.Value) bool { return valueIsLoadOfField(v, m.TxAttempt) }
-			key, pol := k.condKey(iff.Cond)
+			key, pol := k.condKey(bo)
 			var op token.Token
 			switch {
 			case isMax(bo.X) && isAtt(bo.Y):
+				attLoads[bo.Y] = true
 				// max OP attempt  -> attempt OP' max
 				op = map[token.Token]token.Token{token.LSS: token.GTR, token.LEQ: token.GEQ, token.GTR: token.LSS, token.GEQ: token.LEQ, token.EQL: token.EQL, token.NEQ: token.NEQ}[bo.Op]
 			case isAtt(bo.X) && isMax(bo.Y):
+				attLoads[bo.X] = true
 				op = bo.Op
 			default:
 				// event.Error == nil ?
@@ -348,6 +373,7 @@ func runC11(r *Run) {
 		}
 		q := &PathQuery{P: p, Fn: fn, K: k}
 		rep := false
+		repOrder := false
 		nPaths := 0
 		q.Step = func(in ssa.Instruction, deferred bool, st uint64, c *PathCtx) (uint64, bool) {
 			if s, ok := in.(*ssa.Store); ok {
@@ -367,6 +393,17 @@ func runC11(r *Run) {
 					}
 					return st | 1, false
 				}
+			}
+			// the limit is tested on the number of transmissions made so far, not on the counter already incremented
+			// for the one that is about to be made
+			if v, isV := in.(ssa.Value); isV && attLoads[v] && st&1 != 0 && !repOrder {
+				repOrder = true
+				ct.ViolationPath(fn, instrPos(in), "attempt limit tested after the increment", "the counter compared with the limit already counts the retransmission under way: the request is repeated n-1 times instead of n and the final timeout is reported one deadline early", c.Witness(fn, in))
+			}
+			// the deadline of the retransmission is computed from the counter after its increment
+			if m.NextTimeout != nil && callsFn(in, m.NextTimeout) && st&1 == 0 && !repOrder {
+				repOrder = true
+				ct.ViolationPath(fn, instrPos(in), "deadline computed before the attempt counter is incremented", "the retransmission's deadline is (attempt+1)*rto with the attempt number of the previous transmission: transmission k >= 1 is repeated after k*r instead of (k+1)*r, and the final timeout comes early", c.Witness(fn, in))
 			}
 			if in == ssa.Instruction(retxWrite) {
 				nPaths++
@@ -579,6 +616,65 @@ func runC11(r *Run) {
 	rt.Done()
 
 	// ---- deadlines and collection times are read from the same clock
+	// ---- a default never replaces a configured RTO
+	rd := r.Rule("C11.rtodefault", "a constant is stored into the client's RTO only on the edge on which the RTO is still zero (NewClient's and WithNoRetransmit's defaults): the RTO the caller configured with WithRTO/SetRTO is the r of the schedule, never silently replaced", 1)
+	{
+		n := 0
+		for _, fn := range p.LibFuncs() {
+			if fn.Blocks == nil {
+				continue
+			}
+			for _, a := range fieldAccesses(fn, m.RTO) {
+				st, ok := a.Instr.(*ssa.Store)
+				if !ok || a.Kind != "store" {
+					continue
+				}
+				isConstVal := func(v ssa.Value) bool {
+					_, ok := constInt(stripConvs(v))
+					return ok
+				}
+				if !isConstVal(st.Val) {
+					continue
+				}
+				if _, fresh := a.Addr.X.(*ssa.Alloc); fresh {
+					continue // the initial value of a client under construction, before any option has run
+				}
+				n++
+				r.Analysed(fn)
+				guarded := false
+				for _, ec := range allEntryConds(st.Block()) {
+					cond, val := ec.Cond, ec.Val
+					for {
+						u, isU := cond.(*ssa.UnOp)
+						if !isU || u.Op != token.NOT {
+							break
+						}
+						cond, val = u.X, !val
+					}
+					bo, isB := cond.(*ssa.BinOp)
+					if !isB || (bo.Op != token.EQL && bo.Op != token.NEQ) {
+						continue
+					}
+					z, isZ := constInt(bo.Y)
+					if !isZ || z != 0 || !valueIsLoadOfField(stripConvs(bo.X), m.RTO) {
+						continue
+					}
+					if (bo.Op == token.EQL) == val {
+						guarded = true
+					}
+				}
+				rd.Instance(fnName(fn)+"|default RTO", true, map[string]interface{}{"fn": fnName(fn), "guarded_by_rto_zero": guarded})
+				if !guarded {
+					rd.Violation(fn, instrPos(st), "default RTO stored unconditionally", "a constant RTO is stored although an RTO may already be configured: the request is retransmitted (and timed out) on another schedule than the configured r")
+				}
+			}
+		}
+		if n == 0 {
+			rd.Fail("default RTO", "no default store of the client RTO found")
+		}
+	}
+	rd.Done()
+
 	ck := r.Rule("C11.clock", "the built-in collector hands its callback the reading of a Clock (Now()), and that Clock is the client's own (NewClient passes client.clock to it): deadlines (computed from the client's clock) and collection times are on one time line", 2)
 	{
 		tc := p.Named("tickerCollector")
